@@ -36,13 +36,21 @@ def ref_ranks(costs):
     n = len(costs)
     dom = [[ref_dominance(costs[j], costs[i]) == 1 for j in range(n)] for i in range(n)]  # dom[i][j]: j dominates i
     memo = {}
-
-    def rank(i):
-        if i not in memo:
-            ds = [j for j in range(n) if dom[i][j]]
-            memo[i] = 1 if not ds else 1 + max(rank(j) for j in ds)
-        return memo[i]
-    return [rank(i) for i in range(n)]
+    doms = [[j for j in range(n) if dom[i][j]] for i in range(n)]
+    for start in range(n):            # the recursive definition, evaluated with an explicit stack (chains can be long)
+        stack = [start]
+        while stack:
+            i = stack[-1]
+            if i in memo:
+                stack.pop()
+                continue
+            todo = [j for j in doms[i] if j not in memo]
+            if todo:
+                stack.extend(todo)
+                continue
+            memo[i] = 1 if not doms[i] else 1 + max(memo[j] for j in doms[i])
+            stack.pop()
+    return [memo[i] for i in range(n)]
 
 
 def ref_crowding(front_costs):
